@@ -124,6 +124,7 @@ func (m *meta) start() {
 
 	reason := m.behavior.Start()
 	// meta process terminated
+	lib.VerifPoint(m, "meta:swapTermStart")
 	old := atomic.SwapInt32(&m.state, int32(gen.MetaStateTerminated))
 	if old != int32(gen.MetaStateTerminated) {
 		m.p.node.aliases.Delete(m.id)
@@ -139,12 +140,16 @@ func (m *meta) handle() {
 	var reason error
 	var result any
 
+	lib.VerifPoint(m, "meta:cas")
 	if atomic.CompareAndSwapInt32(&m.state, int32(gen.MetaStateSleep), int32(gen.MetaStateRunning)) == false {
 		// running or terminated
 		return
 	}
 
+	lib.VerifPoint(m, "meta:go")
 	go func() {
+		defer lib.VerifDone()
+		lib.VerifPoint(m, "meta:runner")
 		var message *gen.MailboxMessage
 
 		if lib.Recover() {
@@ -244,6 +249,7 @@ func (m *meta) handle() {
 			}
 
 			// terminated
+			lib.VerifPoint(m, "meta:swapTermHandler")
 			old := atomic.SwapInt32(&m.state, int32(gen.MetaStateTerminated))
 			if old != int32(gen.MetaStateTerminated) {
 				m.p.node.aliases.Delete(m.id)
@@ -253,12 +259,14 @@ func (m *meta) handle() {
 			return
 		}
 
+		lib.VerifPoint(m, "meta:casSleep")
 		if atomic.CompareAndSwapInt32(&m.state, int32(gen.MetaStateRunning), int32(gen.MetaStateSleep)) == false {
 			// terminated. seems the main loop is stopped. do nothing.
 			return
 		}
 
 		// check if we got a new message
+		lib.VerifPoint(m, "meta:recheck")
 		if m.system.Item() == nil {
 			if m.main.Item() == nil {
 				// no messages
@@ -267,6 +275,7 @@ func (m *meta) handle() {
 		}
 
 		// got some... try to use this goroutine
+		lib.VerifPoint(m, "meta:casRun")
 		if atomic.CompareAndSwapInt32(&m.state, int32(gen.MetaStateSleep), int32(gen.MetaStateRunning)) == false {
 			// another goroutine is already running
 			return
